@@ -207,6 +207,7 @@ def judge(tokens, out, want, ra=False):
     writer_steps_total = 0
     cached_gen = {}        # reader j -> generation stored with its cached record
     gstores = 0
+    memgen = 0             # the generation the writer (or the J device) stored last: what the segment holds
     for t, items in walk(tokens, obs):
         if t[0] == "W":
             for it in items:
@@ -218,6 +219,7 @@ def judge(tokens, out, want, ra=False):
                 if it["kind"] == "L":
                     gstores = 0                          # a write() call begins with its generation load
                 if it["kind"] == "S" and it["loc"] == "g":
+                    memgen = it["val"]
                     gstores += 1
                     if gstores == 1:
                         in_flight = True                 # first generation store of the call
@@ -232,6 +234,9 @@ def judge(tokens, out, want, ra=False):
                     cj["writer_moved"] = True
         elif t[0] == "C":
             pass
+        elif t[0] == "J":
+            if items and items[0].get("t") == "J":
+                memgen = t[1]
         elif t[0] == "R":
             j = t[1]
             for it in items:
@@ -243,6 +248,9 @@ def judge(tokens, out, want, ra=False):
                         cj["g1"] = it["val"]
                     if it["kind"] == "L" and it["loc"] == "g":
                         cj["lastg"] = it["val"]
+                        if not ra and want in ("C03", "C04") and it["val"] != memgen:
+                            bad.append("reader %d loaded generation %d while the segment holds %d: the client is not looking at the memory the daemon "
+                                       "publishes to (it must see a restarted daemon's publications without reopening)" % (j, it["val"], memgen))
                 elif it["t"] == "T":
                     cj = calls.pop(j, {"n": 0, "writer_moved": False, "in_flight_at_entry": in_flight, "completed_at_entry": completed})
                     if want == "C18":
@@ -334,6 +342,18 @@ def gen_ra(rng):
     return toks
 
 
+def gen_reinit(rng):
+    """The header reads uninitialised (generation 0) when the daemon restarts under attached clients:
+    it re-initialises the segment in place, and the clients must see what it publishes afterwards
+    through the mapping they hold.  Outside the machine's state space (its theorems assume a valid
+    header while a client is attached), so these schedules are judged by the oracle only."""
+    R13 = [("R", 0, None)] * 13
+    W11 = [("W",)] * 11
+    toks = W11 + [("N",)] + R13 + [("W",)] * rng.choice([0, 11, 22]) + [("J", 0), ("C",)] + [("R", 0, None)] * rng.choice([0, 2])
+    toks += [("S",)] + [("R", 0, None)] * rng.choice([0, 2]) + W11 + R13 + W11 + R13 + R13
+    return toks
+
+
 def clean_ra(cfg, scheds):
     """drop the R tokens whose choice the machine refuses (not an event on the location being
     loaded, or not readable by that reader now): a refused token leaves the machine unchanged"""
@@ -356,7 +376,8 @@ def gen_wrap(rng):
     W11 = [("W",)] * 11
     kind = rng.randrange(5)
     if kind == 4:      # the segment reads "being re-initialised" (generation 0) while clients hold a record
-        if rng.random() < 0.5:
+        v = rng.random()
+        if v < 0.5:
             toks = W11 + [("N",)] + R13 + [("W",)] * rng.choice([0, 11]) + [("J", 0)] + [("R", 0, None)] * rng.choice([2, 13]) + [("N",)]
             toks += [("W",)] * rng.choice([3, 11]) + R13 + W11 + R13
         else:
@@ -466,6 +487,16 @@ def run_property(pid, res, proofs_ok, proofs_why, extra_part=None):
     res.traces_validated += len(ra_lines) - len(ra_diffs)
     res.oblige("correspondence:real snapshot() under simulated memory vs Machine.m_run on release/acquire executions (loads returning older stores the machine allows)", not ra_diffs)
     diffs += ra_diffs
+    # re-initialisation of the segment under attached clients (oracle only, see gen_reinit)
+    if pid in ("C03", "C04"):
+        rs = [gen_reinit(rng) for _ in range(max(6, n // 100))]
+        routs = c.run_lines(binary, [line_of(cfg, s) for s in rs], timeout=900)
+        res.evaluations += len(rs)
+        for s, o in zip(rs, routs):
+            res.count("gen:re-initialisation under attached clients")
+            why = judge(s, o, pid)
+            if why:
+                bad.append({"schedule": tok_str(s), "impl": o, "why": why})
     if extra_part:
         bad += extra_part(res, cfg, binary, rng) or []
     if bad:
